@@ -10,7 +10,7 @@ from mv import hperm
 from mv import gen_geom, geom, mf, ref_match, repl
 from mv.quiet import silenced
 from mv.runner import EnumPart, HypPart, Violation
-from props.c05 import ABS_SLACK
+from props.c05 import ABS_SLACK, num_slack
 
 PROPERTY = "C08"
 RULE = ("(i) planted structures with payload and terms (bonds / angles / dihedrals inside each copy = the pattern's own "
@@ -144,7 +144,7 @@ def self_oracle(case, stats):
         raise Violation("atom-count", "%d atoms before, %d after replacing the pattern by itself" % (len(old), len(res)))
     eps = max(o["maxdev"] for g in groups.values() for o in g["orderings"])
     from props.c05 import amp_factor
-    tol = 1e-9 if not rall else (math.sqrt(2 * n) * 2.0 * eps * amp_factor(case) + ABS_SLACK + eps)
+    tol = 1e-9 if not rall else (math.sqrt(2 * n) * 2.0 * eps * amp_factor(case) + num_slack(case) + eps)
     m = match_atoms(cell, old, res, tol)
     one_copy = len(groups) == 1
     for i, j in enumerate(m):
@@ -251,7 +251,7 @@ def subst_oracle(case, stats):
     eps = max(o["maxdev"] for g in groups.values() for o in g["orderings"])
     from props.c05 import amp_factor
     n = len(case["ppos"])
-    tol = 2 * (math.sqrt(2 * n) * 2.0 * max(eps, 1e-12) * amp_factor(case) + ABS_SLACK) + 2 * eps
+    tol = 2 * (math.sqrt(2 * n) * 2.0 * max(eps, 1e-12) * amp_factor(case) + num_slack(case)) + 2 * eps
     try:
         match_atoms(cell, old, res, tol)
     except Violation as v:
